@@ -68,7 +68,7 @@ static inline bool past_stop(uint32_t mode, uint64_t case_no) {
   return g_ctl && (mode > g_ctl->stop_mode || (mode == g_ctl->stop_mode && case_no > g_ctl->stop_case));
 }
 static Ctx *g_ctx = nullptr;
-void (*g_fail_hook)(const char *clause, const char *msg) = nullptr;  // libFuzzer targets
+void (*g_fail_hook)(const char *clause, const char *msg) = nullptr;  // set by the libFuzzer entry point (fuzz/fuzz_main.cpp)
 
 void Ctx::note(const char *fmt, ...) {
   char b[1024]; va_list ap; va_start(ap, fmt); vsnprintf(b, sizeof b, fmt, ap); va_end(ap);
@@ -99,6 +99,7 @@ void edge_reset() { g_edges = 0; }
 uint64_t edge_count() { return g_edges; }
 }  // namespace vf
 
+#ifndef VF_FUZZ   // the libFuzzer runtime brings its own coverage callbacks
 extern "C" void __sanitizer_cov_trace_pc_guard_init(uint32_t *start, uint32_t *stop) {
   using namespace vf;
   if (start == stop || *start) return;
@@ -117,6 +118,7 @@ extern "C" void __sanitizer_cov_trace_pc_guard(uint32_t *guard) {
     _exit(98);
   }
 }
+#endif
 
 namespace vf {
 
@@ -628,7 +630,7 @@ int engine_main(int argc, char **argv) {
   O.cmd = argv[1];
   O.tmp = "/tmp";
   int a = 2;
-  if (O.cmd == "run" && a < argc) O.prop = argv[a++];
+  if ((O.cmd == "run" || O.cmd == "gen") && a < argc) O.prop = argv[a++];
   else if (O.cmd == "replay" && a < argc) O.replay = argv[a++];
   for (; a < argc; a++) {
     std::string s = argv[a];
@@ -646,6 +648,18 @@ int engine_main(int argc, char **argv) {
   if (O.jobs > 64) O.jobs = 64;
   if (O.cmd == "list") {
     for (auto &p : registry()) { printf("%s:", p.id); for (auto &m : p.modes) printf(" %s", m.name); printf("\n"); }
+    return 0;
+  }
+  if (O.cmd == "gen") {   // write random tapes (the random driver's own) as a seed corpus for libFuzzer
+    P = find_prop(O.prop.c_str()); if (!P) return 2;
+    int mi = -1; for (size_t i = 0; i < P->modes.size(); i++) if (!P->modes[i].enumerate && (O.only_mode.empty() || O.only_mode == P->modes[i].name)) { mi = (int)i; break; }
+    if (mi < 0) return 2;
+    const Mode &m = P->modes[mi]; uint64_t N = (uint64_t)(O.scale >= 1 ? O.scale : 100); std::vector<uint8_t> tape;
+    for (uint64_t i = 0; i < N; i++) {
+      fill_tape(tape, O.seed, P->id, VF_BUILD, mi, i * 37 + 11, N * 40, O.thorough ? m.thorough_tape : m.quick_tape);
+      char name[512]; snprintf(name, sizeof name, "%s/seed-%05llu", O.out.c_str(), (unsigned long long)i);
+      FILE *f = fopen(name, "wb"); if (!f) return 2; fwrite(tape.data(), 1, tape.size(), f); fclose(f);
+    }
     return 0;
   }
   if (O.cmd == "replay") return do_replay();
